@@ -67,6 +67,10 @@ def configs(tier, seed):
                     n += 1
                     out.append(dict(harness="structure", res=list(r), tcs=t, max_scales=ms, sym_axis=(n + v) % 3,
                                     others=list(oth[(n * 7 + v) % len(oth)]), cost=2, wall=900, max_paths=20000))
+    # one representative per listed known finding, so that each is re-confirmed (and replayed) in every run
+    out.append(dict(harness="structure", res=[1.0, 4.0, 16.0], tcs=1, max_scales=None, sym_axis=0, others=[100, 70], cost=2, wall=900, max_paths=20000))
+    out.append(dict(harness="structure", res=[800.0, 800.0, 1200.0], tcs=64, max_scales=None, sym_axis=2, others=[4096, 4096], cost=2, wall=900, max_paths=20000))
+    out.append(dict(harness="structure", res=[1.0, 2.0, 16.0], tcs=16, max_scales=None, sym_axis=1, others=[4096, 4096], cost=2, wall=900, max_paths=20000))
     # symbolic base resolution: keys and unit choice for every resolution in a decade, power-of-two ratios between axes
     decades = [(10.0 ** k, 10.0 ** (k + 1)) for k in range(-3, 9)]     # from 1 pm (the finest unit) to 1 m
     ratios = [(1, 1, 1), (1, 2, 4), (4, 1, 1), (1, 1, 2), (8, 1, 2)]
